@@ -307,6 +307,15 @@ func Run(tier, replay string) {
 			walkText(rep, "llvm-stress", fmt.Sprintf("stress-%d.ll", i), t)
 		}
 	}
+	// many blockaddress constants from global initialisers, function bodies and metadata nodes: every one
+	// must end up holding a block of the named function (parsed repeatedly: a fix-up lost to scheduling
+	// leaves a placeholder in some parses only)
+	for k := 0; k < 3; k++ {
+		text := corpus.BlockAddrModule(8+12*k, 8)
+		for r := 0; r < 8; r++ {
+			walkText(rep, "blockaddress-heavy", fmt.Sprintf("blockaddress-%d-%d.ll", k, r), text)
+		}
+	}
 	// clang output (debug info, exceptions, TLS, ifunc ...) and the Modules.tla feature matrix
 	for _, in := range corpus.Clang("-O0", "-O2 -g") {
 		walkText(rep, "clang", in.Name, in.Text)
